@@ -566,6 +566,7 @@ def evaluate(ctx, cases, asan=False):
 
 
 def sanitizer_summary(stderr):
+    stderr = re.sub(r"^done \d+\n", "", stderr, flags=re.M)
     m = re.search(r"(ERROR: AddressSanitizer[^\n]*)", stderr)
     s = m.group(1) if m else stderr[-300:]
     m = re.search(r"(#\d+ 0x[0-9a-f]+ in (?:convert_|direct_newp|b_newp)[^\n]*)", stderr)
@@ -754,8 +755,8 @@ def run(ctx):
         # unaligned stores, which UBSan reports as misaligned; harmless on x86-64 and not C20's subject)
         unpacked = [c for c in cases if not any(n["pack"] for n in c01.agg_nodes(c["top"]))]
         evaluate(ctx, unpacked[:ctx.n(0, 3000)], asan=True)
-    for c in finding_cases():
-        evaluate(ctx, [c], asan=True)
+    # witnesses of the (fixed) finding array_of_varsize_struct, always under ASan
+    evaluate(ctx, finding_cases(), asan=True)
 
 
 MANIFEST = dict(
